@@ -10,6 +10,8 @@ two are equal on the common semantic domain, which is applied as a *filter on th
   * `format` / `contentEncoding` are annotations: for types carrying one, strings other than
     well-formed ones are outside the domain,
   * arrays with duplicate items are outside the domain for types having a set-typed position.
+Integers beyond 2**53 are not compared for types with a multipleOf constraint (the validator
+computes multipleOf in floating point: a limitation of the oracle, not of the statement).
 """
 
 import copy
@@ -323,6 +325,59 @@ def _generic_nested(realm):
     return typing.List[origin[origin[str]]], {}
 
 
+def _generic_with_schema(realm):
+    def mk():
+        from dataclasses import dataclass
+        from typing import Generic, Optional, TypeVar
+
+        from apischema import schema
+
+        T = TypeVar("T")
+
+        @schema(min_props=1, max_props=2)
+        @dataclass
+        class Range(Generic[T]):
+            lower: Optional[T] = None
+            upper: Optional[T] = None
+            step: Optional[T] = None
+
+        Range.__module__ = realm.name
+        return Range
+
+    return _fresh(realm, "Range", mk)
+
+
+def _range_int(realm):
+    return _generic_with_schema(realm)[int], {}
+
+
+def _range_bare(realm):
+    return _generic_with_schema(realm), {}
+
+
+def _range_nested(realm):
+    import typing
+
+    r = _generic_with_schema(realm)
+    return typing.Dict[str, typing.List[r[typing.Annotated[str, __import__("apischema").schema(min_len=1)]]]], {}
+
+
+def _newtype_chain(realm):
+    def mk():
+        import typing
+
+        from apischema import schema
+
+        Small = typing.NewType("Small", int)
+        schema(max=10)(Small)
+        Tiny = typing.NewType("Tiny", Small)
+        schema(min=2, max=20)(Tiny)
+        Small.__module__ = Tiny.__module__ = realm.name
+        return typing.List[Tiny]
+
+    return _fresh(realm, "Tiny", mk), {}
+
+
 def _required_default(realm):
     def mk():
         from dataclasses import dataclass, field
@@ -446,6 +501,10 @@ def natives(tier: str) -> List[Native]:
         Native("Price (field conversions + field schema)", _field_conv, samples=({"amount": 3, "alt": ["a"]}, {"amount": 0}), others=({"amount": -1}, {"amount": {"n": 1}}, {"amount": 1, "alt": 2}, {"amount": 1, "alt": None}, {"alt": ["a"]}), has_obj=True),
         Native("Box[int] (generic dataclass)", _generic, samples=({"item": 1, "more": [2], "opt": 3}, {"item": 1}), others=({"item": "a"}, {"item": 1, "more": ["a"]}, {"item": 1, "opt": None}, {"item": 1, "opt": "a"}), has_obj=True),
         Native("List[Box[Box[str]]] (nested generic)", _generic_nested, samples=([{"item": {"item": "a"}}], [{"item": {"item": "a", "more": ["b"]}, "more": [{"item": "c"}]}], []), others=([{"item": "a"}], [{"item": {"item": 1}}], {"item": {"item": "a"}}), has_obj=True),
+        Native("Range[int] (schema registered on the generic class)", _range_int, samples=({"lower": 1}, {"lower": 1, "upper": 2}), others=({}, {"lower": 1, "upper": 2, "step": 3}, {"lower": None}, {"lower": "a"}, {"upper": None, "step": None}), has_obj=True),
+        Native("Range (unparametrized generic with a registered schema)", _range_bare, samples=({"lower": 1}, {"lower": "a", "upper": [2]}), others=({}, {"lower": 1, "upper": 2, "step": 3}, {"lower": None}), has_obj=True),
+        Native("Dict[str,List[Range[str<min_len=1>]]]", _range_nested, samples=({"k": [{"lower": "a"}]}, {"k": []}, {}), others=({"k": [{}]}, {"k": [{"lower": ""}]}, {"k": [{"lower": "a", "upper": "b", "step": "c"}]}, {"k": [{"lower": 1}]}, {"k": {}}), has_obj=True),
+        Native("List[Tiny] (NewType of a NewType, both with a registered schema)", _newtype_chain, samples=([2, 10], []), others=([1], [11], [20], [2, 30], ["a"], 5)),
         Native("Rpc (required field with default)", _required_default, samples=({"method": "m", "jsonrpc": "2.0"},), others=({"method": "m"}, {"jsonrpc": "2.0"}, {"method": 1, "jsonrpc": "2.0"}), has_obj=True),
         Native("Shape (inherited discriminator, dedicated Literal fields)", _inherited_disc, samples=({"kind": "Circle", "r": 2}, {"kind": "Square"}, {"kind": "Square", "side": 3}), others=({"kind": "Circle", "side": 2}, {"kind": "Shape"}, {"kind": "Triangle"}, {"r": 2}, {"kind": 1}, {}), has_obj=True),
         Native("Und (Undefined default)", _undefined_field, samples=({"a": 1, "u": "s"}, {"a": 1}), others=({"a": 1, "u": None}, {"a": 1, "u": 2}, {"u": "s"}), has_obj=True),
@@ -504,6 +563,7 @@ def run(report, tier: str, seed: int, log_name: str = "deserialize_vs_schema"):
                 report.tool_error(f"cannot realise {name}: {e!r}")
                 continue
             set_pos = C.has_set_position(td)
+            mult_of = C.any_node(td, lambda t: isinstance(t, M.Ann) and t.cons.get("mult_of") is not None)
             for optname, o in osets.items():
                 if o.get("needs_obj") and not C.has_obj(td):
                     continue
@@ -536,8 +596,10 @@ def run(report, tier: str, seed: int, log_name: str = "deserialize_vs_schema"):
                         break
                     if C.has_intfloat(d):
                         continue
-                    if set_pos and (C.has_dup_array(d) or C.has_pyeq_confusion(d)):
+                    if set_pos and C.has_dup_array(d):
                         continue
+                    if mult_of and C.has_bigint(d):
+                        continue  # the validator's multipleOf is computed in floating point
                     nontrivial = isinstance(d, (list, dict)) or not isinstance(td, M.Prim)
                     log.case((name, optname, repr(d)), nontrivial, sample={"type": name, "options": optname, "datum": d} if nontrivial else None)
                     detail = ""
